@@ -450,7 +450,16 @@ func (p *parser) countCaptures() error {
 						// RE2-compat (?P<)
 						p.moveRight(2)
 						ch = p.rightChar(0)
-						if IsWordChar(ch) {
+						if ch >= '1' && ch <= '9' && !p.maintainCaptureOrder && p.digitsUpTo('>') {
+							// (?P<1>...) names the group by its number, exactly like (?<1>...):
+							// the main parse resolves the name "1" to group number 1, so
+							// the pre-scan must not reserve a second slot for it
+							dec, err := p.scanDecimal()
+							if err != nil {
+								return err
+							}
+							p.noteCaptureSlot(dec, pos)
+						} else if IsWordChar(ch) {
 							capname, err := p.scanCapname()
 							if err != nil {
 								return err
@@ -931,6 +940,21 @@ func (p *parser) scanDollar() (*RegexNode, error) {
 	return newRegexNodeCh(NtOne, p.options, '$'), nil
 }
 
+// digitsUpTo reports whether the text from the current position up to the
+// next occurrence of end consists of decimal digits only.
+func (p *parser) digitsUpTo(end rune) bool {
+	for i := 0; i < p.charsRight(); i++ {
+		ch := p.rightChar(i)
+		if ch == end {
+			return i > 0
+		}
+		if ch < '0' || ch > '9' {
+			return false
+		}
+	}
+	return false
+}
+
 func (p *parser) isGroupNameStartChar(ch rune) bool {
 	if p.useOptionE() {
 		return IsECMAIdentifierStartChar(ch) || ch == '\\'
@@ -1219,6 +1243,9 @@ func (p *parser) scanGroupOpen() (*RegexNode, error) {
 
 					if p.isCaptureName(capname) {
 						capnum = p.captureSlotFromName(capname)
+					} else if n, err := strconv.Atoi(capname); err == nil && n > 0 && capname[0] != '0' && p.isCaptureSlot(n) {
+						// a name that is a number is that group number, as in (?<1>...)
+						capnum = n
 					}
 
 					// check if we have bogus character after the name
